@@ -691,6 +691,25 @@ class Cell(Numbered_MCNP_Object):
         base_node = UnitHalfSpace(self, True, True)
         return HalfSpace(base_node, Operator.COMPLEMENT)
 
+    @staticmethod
+    def _comments_after(param):
+        """
+        The comments that follow a parameter in the input, for a parameter that is not written here.
+
+        :param param: the syntax tree of the parameter.
+        :type param: SyntaxNode
+        :returns: the padding after the last value of the parameter if it holds a comment, else nothing.
+        :rtype: str
+        """
+        data = param["data"] if "data" in param else None
+        nodes = getattr(data, "nodes", None)
+        if not nodes:
+            return ""
+        padding = getattr(nodes[-1], "padding", None)
+        if padding is None or not any(padding.comments):
+            return ""
+        return padding.format()
+
     def format_for_mcnp_input(self, mcnp_version):
         """
         Creates a string representation of this MCNP_Object that can be
@@ -733,14 +752,19 @@ class Cell(Numbered_MCNP_Object):
                             param["classifier"].prefix.value.lower()
                         ]
                         attr, _ = self._INPUTS_TO_PROPERTY[cls]
-                        if attr == "_importance":
-                            if printed_importance:
-                                continue
+                        if attr == "_importance" and printed_importance:
+                            continue
+                        # not wrapped yet: a line break after the parameter is kept
+                        text = getattr(self, attr)._format_as_text(mcnp_version)
+                        if text and attr == "_importance":
                             printed_importance = True
                         # add trailing space to comment if necessary
                         ret = cleanup_last_line(ret)
-                        # not wrapped yet: a line break after the parameter is kept
-                        ret += getattr(self, attr)._format_as_text(mcnp_version)
+                        if text:
+                            ret += text
+                        elif getattr(self, attr).set_in_cell_block:
+                            # read here, written in the data block: the comments after the parameter stay here
+                            ret += self._comments_after(param)
                     else:
                         # add trailing space to comment if necessary
                         ret = cleanup_last_line(ret)
